@@ -67,6 +67,18 @@ macro_rules! fp_suite {
             let mk = |v: &[u8]| -> $t { <$t>::from_slice(v).expect("from_slice 32") };
             let mut pair_idx = (a.seed as usize).wrapping_mul(7919) % pool.pairs.len();
             let mut k: u64 = 0;
+            // sweep: every value of the TLC-generated boundary pool through the unary operations and a squaring
+            // (a defect confined to ONE Montgomery-boundary element, e.g. the element whose representation is 1, is reached)
+            if a.focus != "nosweep" {
+                for v in pool.vals.iter() {
+                    let fa = mk(v);
+                    let sa = fa.to_slice();
+                    out.call("f.inv", json!({"F": $fstr, "a": b(&sa)}), || outs! {"out" => opt_bytes(fa.inverse().map(|x| x.to_slice()))});
+                    out.call("f.neg", json!({"F": $fstr, "form": "v", "a": b(&sa)}), || outs! {"out" => b(&(-fa).to_slice())});
+                    out.call("f.mul", json!({"F": $fstr, "form": "rr", "a": b(&sa), "b": b(&sa)}), || outs! {"out" => b(&(&fa * &fa).to_slice())});
+                    out.call("f.is_zero", json!({"F": $fstr, "a": b(&sa)}), || outs! {"out" => Value::Bool(fa.is_zero())});
+                }
+            }
             while !out.full() {
                 k += 1;
                 // operands: designated Montgomery-boundary pairs, pool x pool, pool x random, random x random
